@@ -779,3 +779,52 @@ def guarded_by_edges(fn, bb, edges):
     the complementary edges are the only ones removed is NOT what we want) -- we remove the
     listed edges and ask whether bb is still reachable; if it is, some path avoids them."""
     return bb in fn.reachable() and bb not in fn.reach(0, skip_edges=edges)
+
+
+def edge_implies(fn, a, tgt, b):
+    """block b is reached only if the edge a->tgt was taken — directly (edge dominance) or
+    through a materialised boolean (`matches!`, `a && b`): a bool local assigned the constant
+    true only in blocks edge-dominated by a->tgt, whose own true edge edge-dominates b."""
+    if fn.edge_dom(a, tgt, b):
+        return True
+    for (bi, on, ts, els) in switches(fn):
+        l = op_local(on)
+        if l is None or fn.lty(l) != 'bool':
+            continue
+        if not fn.edge_dom(bi, els, b):
+            continue
+        ds = fn.defs(l)
+        if not ds:
+            continue
+        ok = True
+        any_true = False
+        for (dbi, si, kind, payload, ln) in ds:
+            if kind != 'rv' or payload['k'] != 'use':
+                ok = False
+                break
+            k = op_const(payload['a'][0])
+            if k is None or not isinstance(k.get('v'), bool):
+                # a copy of another materialised bool: recurse one level
+                src = op_local(payload['a'][0])
+                if src is not None and fn.lty(src) == 'bool':
+                    sub = True
+                    for (d2, s2, k2, p2, l2) in fn.defs(src):
+                        kk = op_const(p2['a'][0]) if k2 == 'rv' and p2['k'] == 'use' else None
+                        if kk is None or not isinstance(kk.get('v'), bool):
+                            sub = False
+                        elif kk['v'] is True and not fn.edge_dom(a, tgt, d2):
+                            sub = False
+                        elif kk['v'] is True:
+                            any_true = True
+                    if sub and fn.edge_dom(a, tgt, dbi) or sub:
+                        continue
+                ok = False
+                break
+            if k['v'] is True:
+                any_true = True
+                if not fn.edge_dom(a, tgt, dbi):
+                    ok = False
+                    break
+        if ok and any_true:
+            return True
+    return False
